@@ -354,6 +354,34 @@ def superior (path : List Tok) : Option Int :=
     let coarsest := rs.foldl min r
     if coarsest = 0 then none else some (resolution (coarsest - 1))
 
+/-- second half of `_retrieve_time_coverage`: build the two datetimes from the arguments -/
+def coverageOf (path : List Tok) (sa ea : Std) : Except Err (Option DateTime × Option DateTime) :=
+  let start : Except Err (Option DateTime) :=
+    if sa.nonEmpty then
+      match mkDate sa with
+      | .ok t => .ok (some t)
+      | .error e => .error e
+    else .ok none
+  match start with
+  | .error e => .error e
+  | .ok st =>
+    if ea.nonEmpty then
+      match mkDate (sa.merge ea) with
+      | .error e => .error e
+      | .ok en =>
+        match st with
+        | none => .error .typeError            -- end_date < None
+        | some s =>
+          if lt en s then
+            match superior path with
+            | none => .error .typeError        -- end_date += None
+            | some δ =>
+              match addDelta en δ with
+              | .ok en' => .ok (some s, some en')
+              | .error e => .error e
+          else .ok (some s, some en)
+    else .ok (st, none)
+
 /-- `_retrieve_time_coverage` -/
 def retrieveTimeCoverage (cfg : Cfg) (caps : Caps) :
     Except Err (Option DateTime × Option DateTime) :=
@@ -362,32 +390,7 @@ def retrieveTimeCoverage (cfg : Cfg) (caps : Caps) :
   else
     match toDatetimeArgs caps with
     | .error e => .error e
-    | .ok (sa, ea) =>
-      let start : Except Err (Option DateTime) :=
-        if sa.nonEmpty then
-          match mkDate sa with
-          | .ok t => .ok (some t)
-          | .error e => .error e
-        else .ok none
-      match start with
-      | .error e => .error e
-      | .ok st =>
-        if ea.nonEmpty then
-          match mkDate (sa.merge ea) with
-          | .error e => .error e
-          | .ok en =>
-            match st with
-            | none => .error .typeError            -- end_date < None
-            | some s =>
-              if lt en s then
-                match superior cfg.path with
-                | none => .error .typeError        -- end_date += None
-                | some δ =>
-                  match addDelta en δ with
-                  | .ok en' => .ok (some s, some en')
-                  | .error e => .error e
-              else .ok (some s, some en)
-        else .ok (st, none)
+    | .ok (sa, ea) => coverageOf cfg.path sa ea
 
 /-! ### get_info -/
 
